@@ -177,10 +177,11 @@ func init() {
 }
 
 func (cmd commandFeat) Execute(conn *Conn, param string) {
+	cmds := featCmds
 	if conn.tlsConfig != nil {
-		featCmds += " AUTH TLS\n PBSZ\n PROT\n"
+		cmds += " AUTH TLS\n PBSZ\n PROT\n"
 	}
-	conn.writeMessageMultiline(211, fmt.Sprintf(feats, featCmds))
+	conn.writeMessageMultiline(211, fmt.Sprintf(feats, cmds))
 }
 
 // cmdCdup responds to the CDUP FTP command.
